@@ -4,8 +4,10 @@
    Part 1: block lemmas (windows of a stack, write-back into a stack, row permutations of a stack).
    Part 2: the factors L = [L1; H], U = [U1 | U2] read from the windows of the stored matrix.
    Part 3: the algebraic core (soundness, completeness).
-   Part 4: the step-by-step evaluation of [pluq_solve_core] and the theorems
-           [pluq_solve_verdict], [pluq_solve_nocheck], [solve_verdict], [solve_nocheck]. *)
+   Part 4: the chunked loops and the step-by-step evaluation of [pluq_solve_core]
+           ([eval_check], [eval_nocheck]).
+   The theorems [pluq_solve_verdict], [pluq_solve_nocheck], [solve_verdict], [solve_nocheck] are in
+   Alg/SolveProofs2.v, the kernel (C07) in Alg/SolveProofs3.v. *)
 From Coq Require Import List NArith ZArith Arith Lia Bool Sorted ZifyBool ZifyNat ZifyN.
 From M4 Require Import Base.Bits Lin.Mat Lin.MatAlg Lin.Ops Alg.Gauss Alg.PLE Alg.PLELemmas Alg.PLESpec
   Alg.PLEProofs Lin.Spec Lin.Perm Lin.Tri Lin.Observers Alg.TRSM Alg.TRSMProofs Lin.OpsProofs Alg.Solve.
@@ -432,7 +434,7 @@ Section Eval.
     let X := trsm_ul U B in wf X /\ nr X = nr B /\ nc X = nc B /\ mmul (unit_upper (nr B) U) X = B.
   Variable cutoff : nat.
   Variables (m : nat) (r : nat) (S : mat) (Q : list nat).
-  Hypotheses (HwS : wf S) (HnrS : nr S = m) (Hrm : r <= m) (Hrc : r <= nc S).
+  Hypotheses (HwS : wf S) (HnrS : nr S = m) (Hrm : r <= m).
 
   Let LU := win S 0 0 r r.
   Let H := win S r 0 m r.
@@ -508,9 +510,9 @@ Section Eval.
         f_equal. rewrite HrC3, HcC3. replace (m - nr (mstack W C2)) with 0 by (cbn; lia).
         apply mpaste_all; auto with wf.
       - assert (E0 : nr C3 = 0) by lia. pose proof (wf_nr0 C3 HC3 E0) as E.
-        rewrite HcC3 in E. rewrite E at 2 3. replace (N - m) with 0 by lia.
-        rewrite E. reflexivity. }
+        rewrite HcC3 in E. replace (N - m) with 0 by lia. rewrite E. reflexivity. }
     rewrite E3. cbv beta iota.
+    change (nc (mstack (mstack W C2) (mzero (N - m) c))) with (nc W). rewrite w3.
     assert (E4 : win (mstack (mstack W C2) (mzero (N - m) c)) r 0 m c = C2).
     { unfold win. rewrite msub_mstack_top by (auto; cbn; lia).
       rewrite msub_mstack_bot by (auto; lia). apply msub_eq_full; auto; lia. }
@@ -524,5 +526,30 @@ Section Eval.
     { rewrite !mpaste_mstack_top by (auto; cbn; lia).
       now rewrite mpaste_all by (auto; lia). }
     rewrite E6. reflexivity.
+  Qed.
+
+  Lemma eval_nocheck B0 P0 : apply_p_left B0 P0 = mstack (mstack C1 C2) C3 ->
+    pluq_solve_core trsm_ll trsm_ul false cutoff S r P0 Q B0 false =
+    (0%Z, apply_p_left_trans (mstack V (mzero (N - r) c)) Q).
+  Proof.
+    intros EB1. unfold pluq_solve_core. cbv zeta. rewrite EB1.
+    destruct eval_wfLU as (l1 & l2 & l3).
+    destruct eval_W as (w1 & w2 & w3 & _). destruct eval_V as (v1 & v2 & v3 & _).
+    change (nc (mstack (mstack C1 C2) C3)) with (nc C1). rewrite HcC1.
+    assert (HC12 : wf (mstack C1 C2)) by (apply wf_mstack; auto; lia).
+    assert (HWC : wf (mstack W C2)) by (apply wf_mstack; auto; lia).
+    assert (HC23 : wf (mstack C2 C3)) by (apply wf_mstack; auto; lia).
+    assert (E1 : win (mstack (mstack C1 C2) C3) 0 0 r c = C1).
+    { unfold win. rewrite !msub_mstack_top by (auto; cbn; lia).
+      apply msub_eq_full; auto; lia. }
+    rewrite E1. change (trsm_ll (win S 0 0 r r) C1) with W.
+    assert (E2 : mpaste (mstack (mstack C1 C2) C3) 0 0 W = mstack (mstack W C2) C3).
+    { rewrite !mpaste_mstack_top by (auto; cbn; lia). now rewrite mpaste_all by (auto; lia). }
+    rewrite E2. change (trsm_ul (win S 0 0 r r) W) with V.
+    assert (E6 : mpaste (mstack (mstack W C2) C3) 0 0 V = mstack (mstack V C2) C3).
+    { rewrite !mpaste_mstack_top by (auto; cbn; lia). now rewrite mpaste_all by (auto; lia). }
+    rewrite E6. rewrite mstack_assoc. rewrite <- v2 at 1.
+    rewrite clear_rows_from_mstack by (auto; cbn; lia). rewrite v3.
+    replace (nr (mstack C2 C3)) with (N - r) by (cbn; lia). reflexivity.
   Qed.
 End Eval.
